@@ -186,6 +186,14 @@ def _tr_block(stmts, call, env):
             continue
         if isinstance(st, ast.Return):
             return tr_expr(st.value, call, env)
+        if isinstance(st, ast.Expr):
+            # a call made for its side effect (e.g. recording the name somewhere): it does not change what is returned by itself,
+            # but state it writes may be read back - reads of engine state are unconstrained strings anyway
+            call.approximated.append("side effect: " + ast.unparse(st)[:50])
+            continue
+        if isinstance(st, (ast.Assign, ast.AnnAssign, ast.AugAssign)):
+            call.approximated.append("assignment: " + ast.unparse(st)[:50])
+            continue
         raise Unencodable(f"statement {ast.dump(st)[:80]}")
     return None
 
@@ -371,7 +379,62 @@ def real_collision(prefix="leaf"):
         if got[0] == got[1]:
             return True, f"two engines asked after random.seed(12345) both returned {got[0]!r} (prefix {pfx!r})"
         tried.append((pfx[:8], names[:2], [a, b]))
+    # the encoding admits a collision through engine state that the code reads back: let real threads race for it (only reached
+    # when the solver found the VC satisfiable, i.e. never on code whose names are distinct by construction)
+    dup = _stress(prefix if prefix else "leaf")
+    if dup:
+        return True, f"threads racing on one engine: {dup}"
     return False, f"no collision reproduced: {tried}"
+
+
+def _stress(prefix, threads=8, calls=6000):
+    import sys
+    from lsst.daf.relation import iteration
+    from ..prog import Tag
+
+    e = iteration.Engine(name="stress")
+    a = Tag("a")
+    payload = iteration.RowSequence([])
+    out = [[] for _ in range(threads)]
+    old = sys.getswitchinterval()
+    sys.setswitchinterval(1e-6)
+    barrier = threading.Barrier(threads, timeout=30)
+    budget_s = 60.0
+
+    def work(i):
+        mine = out[i]
+        pfx = f"{prefix}{i}"
+        try:
+            barrier.wait()
+        except threading.BrokenBarrierError:
+            return
+        for k in range(calls):  # names through leaf construction and through direct requests, all threads at once
+            if k % 2:
+                mine.append((pfx, e.make_leaf({a}, payload=payload, name_prefix=pfx).name))
+            else:
+                mine.append((pfx, e.get_relation_name(pfx)))
+
+    try:
+        ts = [threading.Thread(target=work, args=(i,)) for i in range(threads)]
+        for th in ts:
+            th.start()
+        for th in ts:
+            th.join(budget_s + 10)
+    finally:
+        sys.setswitchinterval(old)
+    names = [n for lst in out for _, n in lst]
+    wrong = [(p, n) for lst in out for p, n in lst if not n.startswith(p)]
+    if len(set(names)) != len(names):
+        seen, d = set(), None
+        for n in names:
+            if n in seen:
+                d = n
+                break
+            seen.add(n)
+        return f"{len(names) - len(set(names))} of {len(names)} names handed out more than once, e.g. {d!r}"
+    if wrong:
+        return f"{len(wrong)} names do not start with the requested prefix, e.g. {wrong[0]}"
+    return None
 
 
 def run_shape(shape, tier):
